@@ -44,6 +44,10 @@ const MALFORMED: &[(&str, &str, bool)] = &[
     ("float-exponent-upper-no-digits", "2E", false),
     ("float-exponent-underscore-only", "1e_", false),
     ("float-dot-exponent-no-digits", "1.0e", false),
+    ("float-bare-dot-exponent-sign-no-digits", "1.e+", false),
+    ("float-bare-dot-exponent-upper-sign-no-digits", "1.E-", false),
+    ("float-zero-bare-dot-exponent-sign-no-digits", "0.e+", false),
+    ("float-underscore-bare-dot-exponent-sign-no-digits", "12_3.E+", false),
     ("version-no-number", "OPENQASM ;", false),
     ("version-trailing-dot", "OPENQASM 3.;", false),
     ("version-not-a-number", "OPENQASM x;", false),
@@ -392,7 +396,8 @@ fn gate_include_case(seed: u64, obs: &mut Obs) {
     let lexical = r.bool();
     let via_file = r.bool();
     let dir = scratch_dir("c11");
-    let names = ["main.qasm", "a.inc", "b.inc", "c.inc"];
+    // one chain in three uses file names that merely end in the library's name: they are ordinary files
+    let names = if r.chance(1, 3) { ["main.qasm", "a_stdgates.inc", "sub.stdgates.inc", "xstdgates.inc"] } else { ["main.qasm", "a.inc", "b.inc", "c.inc"] };
     let mut texts: Vec<String> = Vec::new();
     for lvl in 0..=depth {
         // every file has a semantic fault (undeclared name) so that leaked analysis is visible
